@@ -55,12 +55,12 @@ impl Scenario for C12S {
     }
     fn count(&self, tier: Tier, _variant: &str) -> u64 {
         match tier {
-            Tier::Quick => BASE * 2,
-            Tier::Thorough => BASE * 60,
+            Tier::Quick => BASE * 12,
+            Tier::Thorough => BASE * 600,
         }
     }
     fn rule(&self) -> &'static str {
-        "exhaustive enumeration of crash points: case = (victim sim-process crashed before its k-th system call of the send, k = 0..17, or right after the send, or clean exit) x (message of 1..6 packets) x (no attachments | sender + region attached) x (0 | 1 surviving sender handle in another sim-process that keeps sending) x (observer: blocking recv, try_recv polling, receiver set, router) x (0 | 2 completed messages before), each under 2 (quick) / 60 (thorough) seeded schedules of victim, survivor, reaper and observer; non-trivial = the victim died inside the send (after its first and before its last system call); distinct = distinct (case, schedule hash)"
+        "exhaustive enumeration of crash points: case = (victim sim-process crashed before its k-th system call of the send, k = 0..17, or right after the send, or clean exit) x (message of 1..6 packets) x (no attachments | sender + region attached) x (0 | 1 surviving sender handle in another sim-process that keeps sending) x (observer: blocking recv, try_recv polling, receiver set, router) x (0 | 2 completed messages before), each under 12 (quick) / 600 (thorough) seeded schedules of victim, survivor, reaper and observer; non-trivial = the victim died inside the send (after its first and before its last system call); distinct = distinct (case, schedule hash)"
     }
     fn gen(&self, seed: u64, idx: u64, _tier: Tier, _variant: &str) -> Value {
         let rep = idx / BASE;
